@@ -7,25 +7,66 @@ From Krrood Require Import Base.Sx Orm.ObjGraph Orm.Iso Orm.ObjGraphWalk Orm.Obj
 Import ListNotations.
 Local Open Scope nat_scope.
 
-(* for every closed heap (any size, depth, sharing, cycles, None, empty collections, any concrete class in any field)
-   without alternatively mapped classes, on fuel |heap|+1 resp. |DAOs|+1 both conversions terminate and
-   from_dao (to_dao g) is isomorphic to g *)
-Theorem C04_round_trip : forall alts l r, wf_heap l r = true -> F04 alts l = true ->
-  exists r' s2, round_trip alts l r = Some (r', s2) /\ iso (dst s2) r' (heap_of l) r.
+(* For every user code [enc]/[dec] (create_instance / create_from_dao on the column values) that round-trips, every class model
+   (alternative mappings [alts], DAOs below an alternatively mapped DAO [ab]) and every closed heap (any size, depth,
+   sharing, cycles, None, empty and repeated collections, any concrete class in any field, alternatively mapped objects
+   anywhere) in F04w -- the class model is coherent on the heap and from_dao never hands out a mapping object that is still
+   in progress (no cycle FIRST ENTERED at an alternatively mapped object) -- both conversions terminate on fuel |heap|+1
+   resp. |DAOs|+1 and from_dao (to_dao g) is isomorphic to g. *)
+Theorem C04_round_trip : forall enc dec : Z -> list Z -> list Z, (forall c s, dec c (enc c s) = s) ->
+  forall alts ab l r, wf_heap l r = true -> F04w enc dec alts ab l r = true ->
+  exists r' s2, round_trip enc dec alts ab l r = Some (r', s2) /\ bad s2 = false /\ iso (dst s2) r' (heap_of l) r.
+Proof. exact round_trip_iso_w. Qed.
+
+(* the fragment of the first version (no object of an alternatively mapped class or of a mapping class at all) lies inside *)
+Theorem C04_round_trip_plain : forall enc dec : Z -> list Z -> list Z, (forall c s, dec c (enc c s) = s) ->
+  forall alts ab l r, wf_heap l r = true -> F04 alts l = true ->
+  exists r' s2, round_trip enc dec alts ab l r = Some (r', s2) /\ bad s2 = false /\ iso (dst s2) r' (heap_of l) r.
 Proof. exact round_trip_iso. Qed.
 
-(* the invariant of the memoised walk, for both directions, over the whole recursion: from any state satisfying
-   Inv (memo values below the counter, memo injective, every allocated address a memo value, memo keys within the
-   reference-closed set Q, e.g. the objects reachable from the root, every memo key pinned when the state keeps alive) a call with enough fuel
-   returns, the state is extended (old entries and old destination objects untouched; every entry registered during
-   the call is done: its object is the image of the source object under the memo), and Inv holds again *)
+(* the invariant of the memoised walk, for both directions, over the whole recursion: from any state satisfying Inv (memo
+   values below the counter, memo injective, memo keys within the reference-closed set Q and pinned when the state keeps
+   alive, keys in progress are memo keys) a call with enough fuel returns; the state is extended (entries present at call
+   time, in-progress set and older destination objects untouched -- the only entry ever overwritten is that of the object
+   being finished; unless a mapping object in progress was handed out, every entry registered during the call is done: its
+   object is the image of the source object under the memo, through FINAL entries only); Inv holds again; and the returned
+   entry is final. *)
 Theorem C04_memo_invariant : forall P src U (Q : addr -> Prop),
   (forall a, Q a -> exists o, src a = Some o /\ forall t ks k, In (t, ks) (oflds o) -> In k ks -> Q k) ->
   (forall a, Q a -> In a U) ->
-  (forall a o, src a = Some o -> p_late P (p_cmap P (ocls o)) = None) ->
   forall fuel a s, Inv P src Q s -> Q a -> length (unmemo U s) < fuel ->
-  exists d s', walk P src fuel a s = Some (d, s') /\ ext P src s s' /\ Inv P src Q s' /\ mlook a s' = Some d.
+  exists d s', walk P src fuel a s = Some (d, s') /\ ext P src Q s s' /\ Inv P src Q s' /\
+    (bad s' = false -> krelf P src s' a d).
 Proof. exact walk_ok. Qed.
+
+(* keep-alive, as an invariant of the walk for both directions (ToDAOState.keep_alive; FromDAOState.keep_alive since repo
+   commit 32013a0): with p_keep every key of the memo is pinned by the state, so its address cannot be recycled *)
+Theorem C04_keep_alive_invariant : forall P src U (Q : addr -> Prop),
+  (forall a, Q a -> exists o, src a = Some o /\ forall t ks k, In (t, ks) (oflds o) -> In k ks -> Q k) ->
+  (forall a, Q a -> In a U) ->
+  forall fuel a s d s', p_keep P = true -> Inv P src Q s -> Q a -> length (unmemo U s) < fuel ->
+  walk P src fuel a s = Some (d, s') -> forall x y, mlook x s' = Some y -> In x (keep s').
+Proof. exact keep_memo_keys. Qed.
+
+(* over histories: a FromDAOState reused for a second conversion.  The DAOs of the history are kept alive, hence live in
+   one heap with distinct addresses; the second conversion is correct, the first result stays valid, every memoised DAO
+   is pinned (finding C04-b / C04-c, fixed by 32013a0) *)
+Theorem C04_state_reuse_safe : forall (dec : Z -> list Z -> list Z) alts ab l r1 r2,
+  wf_heap l r1 = true -> wf_heap l r2 = true -> F04 alts l = true ->
+  (forall a o, heap_of l a = Some o -> dec (ocls o) (oscal o) = oscal o) ->
+  exists d1 s1 d2 s2,
+    from_dao dec alts ab (heap_of l) (length l) r1 st0 = Some (d1, s1) /\
+    from_dao dec alts ab (heap_of l) (length l) r2 s1 = Some (d2, s2) /\
+    iso (heap_of l) r1 (dst s2) d1 /\ iso (heap_of l) r2 (dst s2) d2 /\
+    (forall x y, mlook x s2 = Some y -> In x (keep s2)).
+Proof. exact state_reuse_safe. Qed.
+
+(* the old failing scenario (second DAO at the released address of the first) is no longer a state the runtime can
+   present: the first DAO is pinned *)
+Theorem C04_state_reuse_scenario_excluded :
+  exists r1 s1, from_dao idc [] [] reuse_dao1 1 0 st0 = Some (r1, s1) /\ In 0 (keep s1) /\
+    ~ admissible_next s1 reuse_dao1 reuse_dao2.
+Proof. exact state_reuse_scenario_excluded. Qed.
 
 (* what the Spec means: an isomorphism is a bijection between the reachable parts *)
 Theorem C04_iso_bijection : forall h1 r1 h2 r2, iso h1 r1 h2 r2 ->
@@ -39,69 +80,40 @@ Theorem C04_canon_sound : forall l1 r1 l2 r2, wf_heap l1 r1 = true -> wf_heap l2
   canon_l l1 r1 = canon_l l2 r2 -> iso (heap_of l1) r1 (heap_of l2) r2.
 Proof. exact canon_eq_iso. Qed.
 
-(* outside the fragment: a cycle entered at an alternatively mapped object (finding C04-a) *)
+(* outside the fragment, and the ONLY excluded class: a cycle first entered at an alternatively mapped object (finding C04-a):
+   the class model is coherent, the model sets [bad], and the result is not isomorphic *)
 Theorem C04_refuted_altcycle :
-  wf_heap altcycle_heap 0 = true /\
-  exists r' s2, round_trip altcycle_alts altcycle_heap 0 = Some (r', s2) /\
+  wf_heap altcycle_heap 0 = true /\ alts_ok altcycle_alts altcycle_heap = true /\
+  exists r' s2, round_trip idc idc altcycle_alts [] altcycle_heap 0 = Some (r', s2) /\ bad s2 = true /\
     ~ iso (dst s2) r' (heap_of altcycle_heap) 0.
 Proof. exact refuted_altcycle. Qed.
-
-(* keep-alive, as an invariant of the walk for both directions (ToDAOState.keep_alive; FromDAOState.keep_alive since repo
-   commit 32013a0): with p_keep every key of the memo is pinned by the state, so its address cannot be recycled *)
-Theorem C04_keep_alive_invariant : forall P src U (Q : addr -> Prop),
-  (forall a, Q a -> exists o, src a = Some o /\ forall t ks k, In (t, ks) (oflds o) -> In k ks -> Q k) ->
-  (forall a, Q a -> In a U) ->
-  (forall a o, src a = Some o -> p_late P (p_cmap P (ocls o)) = None) ->
-  forall fuel a s d s', p_keep P = true -> Inv P src Q s -> Q a -> length (unmemo U s) < fuel ->
-  walk P src fuel a s = Some (d, s') -> forall x y, mlook x s' = Some y -> In x (keep s').
-Proof. exact keep_memo_keys. Qed.
-
-(* over histories: a FromDAOState reused for a second conversion.  The DAOs of the history are kept alive, hence live in
-   one heap with distinct addresses; the second conversion is correct, the first result stays valid, every memoised DAO
-   is pinned (finding C04-b / C04-c, fixed by 32013a0) *)
-Theorem C04_state_reuse_safe : forall alts l r1 r2,
-  wf_heap l r1 = true -> wf_heap l r2 = true -> F04 alts l = true ->
-  exists d1 s1 d2 s2,
-    from_dao alts (heap_of l) (length l) r1 st0 = Some (d1, s1) /\
-    from_dao alts (heap_of l) (length l) r2 s1 = Some (d2, s2) /\
-    iso (heap_of l) r1 (dst s2) d1 /\ iso (heap_of l) r2 (dst s2) d2 /\
-    (forall x y, mlook x s2 = Some y -> In x (keep s2)).
-Proof. exact state_reuse_safe. Qed.
-
-(* the old failing scenario (second DAO at the released address of the first) is no longer a state the runtime can
-   present: the first DAO is pinned *)
-Theorem C04_state_reuse_scenario_excluded :
-  exists r1 s1, from_dao [] reuse_dao1 1 0 st0 = Some (r1, s1) /\ In 0 (keep s1) /\
-    ~ admissible_next s1 reuse_dao1 reuse_dao2.
-Proof. exact state_reuse_scenario_excluded. Qed.
 
 (* regression example about the code BEFORE 32013a0 (no keep_alive in FromDAOState): nothing is pinned, the recycled
    address is admissible, and the second from_dao returns the first row's object *)
 Example C04_regression_state_reuse_old :
   exists r1 s1 r2 s2,
-    from_dao_old [] reuse_dao1 1 0 st0 = Some (r1, s1) /\
+    from_dao_old idc [] [] reuse_dao1 1 0 st0 = Some (r1, s1) /\
     keep s1 = [] /\ admissible_next s1 reuse_dao1 reuse_dao2 /\
-    from_dao_old [] reuse_dao2 1 0 s1 = Some (r2, s2) /\
+    from_dao_old idc [] [] reuse_dao2 1 0 s1 = Some (r2, s2) /\
     ~ iso (dst s2) r2 reuse_dao2 0.
 Proof. exact old_state_reuse_regression. Qed.
 
-(* non-vacuity: a heap with a shared object, a 2-cycle, a self loop, None and an empty collection is in the fragment,
-   and the model's round trip has the canonical form of the input *)
-Definition c04_example : lheap :=
-  [(0, mkObj 1 [7%Z] [(1%Z, [1; 2; 1]); (2%Z, [])]);
-   (1, mkObj 2 [] [(3%Z, [2]); (4%Z, [0])]);
-   (2, mkObj 3 [1%Z; 2%Z] [(5%Z, [2]); (6%Z, [])])].
+(* non-vacuity: an alternatively mapped object (class 10) that is shared and lies on a cycle entered at a plain object, and a DAO
+   below an alternatively mapped DAO (class 12): outside the old fragment, inside F04w, model result = canonical form of the input;
+   the same cycle entered at the alternatively mapped object is outside *)
 Example C04_nonvacuous :
-  wf_heap c04_example 0 = true /\ F04 [(10, 11)%Z] c04_example = true /\
-  model_canon [(10, 11)%Z] c04_example 0 = spec_canon c04_example 0 /\
-  spec_canon c04_example 0 <> SL [SZ (-1)%Z].
-Proof. repeat split; try (vm_compute; reflexivity). vm_compute. discriminate. Qed.
+  (let l := [(0, mkObj 20 [5%Z] [(2%Z, [1]); (3%Z, [1])]); (1, mkObj 10 [1%Z] [(1%Z, [0]); (4%Z, [2])]); (2, mkObj 12 [3%Z; 4%Z] [])] in
+   wf_heap l 0 = true /\ F04 altcycle_alts l = false /\ F04w idc idc altcycle_alts [12%Z] l 0 = true /\
+   model_canon altcycle_alts [12%Z] l 0 = spec_canon l 0) /\
+  F04w idc idc altcycle_alts [] altcycle_heap 1 = true /\ F04w idc idc altcycle_alts [] altcycle_heap 0 = false.
+Proof. split; [exact widened_fragment_example|]. split; vm_compute; reflexivity. Qed.
 
 Print Assumptions C04_round_trip.
+Print Assumptions C04_round_trip_plain.
 Print Assumptions C04_memo_invariant.
-Print Assumptions C04_iso_bijection.
-Print Assumptions C04_canon_sound.
-Print Assumptions C04_refuted_altcycle.
 Print Assumptions C04_keep_alive_invariant.
 Print Assumptions C04_state_reuse_safe.
 Print Assumptions C04_state_reuse_scenario_excluded.
+Print Assumptions C04_iso_bijection.
+Print Assumptions C04_canon_sound.
+Print Assumptions C04_refuted_altcycle.
